@@ -10,7 +10,7 @@
      resolveRelToBase        -> [strip_prefix] + [check_dirs]
      ensureLinkPath          -> [link_ok]
    Paths are lists of components; a tar header name is prefix ++ rel. *)
-From Oras Require Import Base.Prelude.
+From Oras Require Import Base.Prelude Generated.GC12.
 
 Definition name := str.
 Definition path := list name.
@@ -237,7 +237,7 @@ Definition has_children (f : fs) (p : path) : bool :=
 Definition is_root (p : path) : bool := match p with [] => true | _ :: _ => false end.
 
 (* directories are created owner-writable (mode | 0700) and get their recorded mode at io.EOF *)
-Definition owner_rwx : N := 448.
+Definition owner_rwx : N := c12_dir_owner_bits.   (* the literal of mode|0700, regenerated from extractTarDirectory *)
 
 Definition extract_entry (pre : path) (umask : N) (preserve : bool) (f : fs) (e : entry) : res fs :=
   match strip_prefix pre (e_name e) with
@@ -313,7 +313,8 @@ Fixpoint extract_list (pre : path) (umask : N) (preserve : bool) (f : fs) (es : 
   end.
 
 (* pushDir: ensureDir(target) = MkdirAll(target, 0777) then the extraction *)
-Definition fs_init (umask : N) : fs := [([], NDir (create_mode dir_create_bits umask 511))].
+(* the 0777 is the literal of ensureDir's os.MkdirAll, regenerated from content/file/file.go *)
+Definition fs_init (umask : N) : fs := [([], NDir (create_mode dir_create_bits umask c12_ensure_dir_perm))].
 
 (* extractTarDirectory before the fixes of the directory modes: recorded modes applied at
    once, nothing after the last entry *)
